@@ -1,0 +1,6 @@
+// Package verifhook holds the guarded seams used by the deterministic
+// simulator that lives outside this repository. Without the "verif" build tag
+// every function here is an empty, inlinable no-op and Enabled is a constant
+// false, so call sites of the form `if verifhook.Enabled { ... }` are dead
+// code and the shipped behaviour is unchanged.
+package verifhook
